@@ -627,6 +627,12 @@ val lit : n -> n list
 
 val print : re -> n list
 
+val lit_user : n -> n list
+
+val lit_in_class : n -> n list
+
+val print_user : re -> n list
+
 val print_top : re -> n list
 
 type text = n list
